@@ -208,6 +208,9 @@ pub fn names() -> Names {
 fn build(nm: &Names, cfg: &Cfg) -> SApp {
     let funds = cfg.funds;
     let block = mock_env().block;
+    let mut reg_block = block.clone();
+    reg_block.time = reg_block.time.plus_seconds(cfg.reg_ahead_s);
+    let _ = &block;
     AppBuilder::new().with_storage(SnapStorage::new()).build(|router, api, storage| {
         for d in &nm.delegators {
             router.bank.init_balance(storage, &Addr::unchecked(d), vec![coin(funds, DENOM), coin(5, FOREIGN)]).unwrap();
@@ -216,7 +219,7 @@ fn build(nm: &Names, cfg: &Cfg) -> SApp {
         for (i, v) in nm.validators.iter().take(2).enumerate() {
             router
                 .staking
-                .add_validator(api, storage, &block, Validator::create(v.clone(), Decimal::percent(nm.commissions[i] as u64), Decimal::percent(100), Decimal::percent(1)))
+                .add_validator(api, storage, &reg_block, Validator::create(v.clone(), Decimal::percent(nm.commissions[i] as u64), Decimal::percent(100), Decimal::percent(1)))
                 .unwrap();
         }
     })
@@ -321,6 +324,8 @@ pub struct Hidden {
     now: u128,
     withdraw_to: BTreeMap<u8, u8>,
     rewards: BTreeMap<(u8, u8), RewardAcc>,
+    /// rewards accrue from here on (nanoseconds since start): the validators' registration time
+    reward_start_ns: u128,
     /// time of the last change of any stake of the validator (rewards accrue on constant stake)
     slashed_ever: BTreeMap<u8, u32>,
 }
@@ -334,9 +339,11 @@ impl Hidden {
     }
     /// accrue rewards of every delegation of validator v (or all) for `dt` seconds at current stakes
     fn accrue(&mut self, dt_ns: u128, nm: &Names) {
-        if dt_ns == 0 {
+        let (from, to) = (self.now.max(self.reward_start_ns), self.now + dt_ns);
+        if to <= from {
             return;
         }
+        let dt_ns = to - from;
         for ((d, v), s) in self.shares.clone() {
             if s.is_zero() {
                 continue;
@@ -371,6 +378,9 @@ pub struct Cfg {
     pub payout_is_home: bool,
     /// annual rate in percent (a staking parameter fixed at setup)
     pub apr_pct: u32,
+    /// the validators are registered with a block whose time is this many seconds AHEAD of the
+    /// chain's (rewards cannot accrue before a validator exists)
+    pub reg_ahead_s: u64,
 }
 
 fn pct_rat(p: u32) -> Rat {
@@ -406,7 +416,7 @@ pub fn step(app: &mut SApp, nm: &Names, st: &SState, op: &SOp, cfg: &Cfg, ops_al
         v
     };
     let mut path = st.path.clone();
-    let case = |what: &str, extra: Value| json!({"engine": "staking", "history": hist(&st.path, op), "clause": what, "detail": extra, "unbonding_s": cfg.unbonding, "apr_pct": cfg.apr_pct, "initial_funds": cfg.funds.to_string()});
+    let case = |what: &str, extra: Value| json!({"engine": "staking", "history": hist(&st.path, op), "clause": what, "detail": extra, "unbonding_s": cfg.unbonding, "apr_pct": cfg.apr_pct, "validators_registered_ahead_s": cfg.reg_ahead_s, "initial_funds": cfg.funds.to_string()});
     let d_addr = |d: u8| Addr::unchecked(&nm.delegators[d as usize]);
     let denom_of = |x: u8| if x == 0 { DENOM } else { FOREIGN };
     // ---- run the operation
@@ -912,7 +922,7 @@ pub fn explore(ctx: &Ctx, nm: &Names, alpha: &[SOp], max_depth: usize, cfg: &Cfg
     // process_queue writes its (empty) queue on the first block update; start from a settled state
     let b0 = app0.block_info();
     app0.set_block(b0.clone());
-    let root = SState { storage: app0.storage().clone(), block: b0, hidden: Hidden::default(), obs: obs0, path: vec![] };
+    let root = SState { storage: app0.storage().clone(), block: b0, hidden: Hidden { reward_start_ns: cfg.reg_ahead_s as u128 * 1_000_000_000, ..Hidden::default() }, obs: obs0, path: vec![] };
     let seen = KeySet::new();
     seen.insert(state_key(&root));
     let mut frontier = vec![root.clone()];
@@ -994,7 +1004,7 @@ pub fn explore(ctx: &Ctx, nm: &Names, alpha: &[SOp], max_depth: usize, cfg: &Cfg
                     let mut app = build(nm, cfg);
                     let b0 = app.block_info();
                     app.set_block(b0);
-                    let quiet_cfg = Cfg { check_rewards: false, prop: cfg.prop.clone(), funds: cfg.funds, unbonding: cfg.unbonding, payout_is_home: false, apr_pct: cfg.apr_pct };
+                    let quiet_cfg = Cfg { check_rewards: false, prop: cfg.prop.clone(), funds: cfg.funds, unbonding: cfg.unbonding, payout_is_home: false, apr_pct: cfg.apr_pct, reg_ahead_s: cfg.reg_ahead_s };
                     let mut cur = SState { storage: app.storage().clone(), block: app.block_info(), hidden: Hidden::default(), obs: Obs::default(), path: vec![] };
                     cur.obs = observe(&app, nm).unwrap_or_default();
                     let mut good = true;
@@ -1227,7 +1237,7 @@ fn maturity_sweep(ctx: &Ctx, nm: &Names, states: &[SState], alpha: &[SOp], cfg: 
 pub fn rejected_sudo_sweep(ctx: &Ctx, depth: usize) -> u64 {
     let nm = names();
     let quiet = Ctx::new("C16", ctx.tier);
-    let cfg = Cfg { check_rewards: false, prop: "C16".into(), funds: 10, unbonding: UNBONDING, payout_is_home: false, apr_pct: APR_PCT };
+    let cfg = Cfg { check_rewards: false, prop: "C16".into(), funds: 10, unbonding: UNBONDING, payout_is_home: false, apr_pct: APR_PCT, reg_ahead_s: 0 };
     let alpha = alphabet_c16();
     let out = explore(&quiet, &nm, &alpha, depth, &cfg, true, 200_000);
     let bad = [SOp::Slash { v: 0, pct: 150 }, SOp::Slash { v: 1, pct: 101 }, SOp::Slash { v: 2, pct: 50 }];
@@ -1256,7 +1266,7 @@ pub fn rejected_sudo_sweep(ctx: &Ctx, depth: usize) -> u64 {
 
 pub fn run_c14(ctx: &Ctx) -> i32 {
     let nm = names();
-    let cfg = Cfg { check_rewards: false, prop: "C14".into(), funds: 10, unbonding: UNBONDING, payout_is_home: false, apr_pct: APR_PCT };
+    let cfg = Cfg { check_rewards: false, prop: "C14".into(), funds: 10, unbonding: UNBONDING, payout_is_home: false, apr_pct: APR_PCT, reg_ahead_s: 0 };
     let reduced = alphabet_c14(Tier::Quick, false);
     let (d_reduced, d_full) = ctx.tier.pick((6, 0), (7, 6));
     let out1 = explore(ctx, &nm, &reduced, d_reduced, &cfg, true, ctx.tier.pick(600_000, 3_000_000));
@@ -1272,7 +1282,7 @@ pub fn run_c14(ctx: &Ctx) -> i32 {
     }
     // an annual rate of zero (a staking parameter like any other): everything about delegations,
     // unbondings and the refusal of invalid operations holds unchanged
-    let cfg0 = Cfg { check_rewards: false, prop: "C14".into(), funds: 10, unbonding: UNBONDING, payout_is_home: false, apr_pct: 0 };
+    let cfg0 = Cfg { check_rewards: false, prop: "C14".into(), funds: 10, unbonding: UNBONDING, payout_is_home: false, apr_pct: 0, reg_ahead_s: 0 };
     let out0 = explore(ctx, &nm, &reduced, ctx.tier.pick(3, 5), &cfg0, true, 1_000_000);
     let n0 = invalid_sweep(ctx, &nm, &out0.all, &reduced, &cfg0);
     outs.push(("rate-zero", &out0, reduced.iter().map(sop_label).collect::<Vec<_>>()));
@@ -1289,7 +1299,7 @@ pub fn run_c14(ctx: &Ctx) -> i32 {
         SOp::Advance { secs: 1 },
         SOp::Slash { v: 0, pct: 50 },
     ];
-    let cfg_u0 = Cfg { check_rewards: false, prop: "C14".into(), funds: 10, unbonding: 0, payout_is_home: false, apr_pct: APR_PCT };
+    let cfg_u0 = Cfg { check_rewards: false, prop: "C14".into(), funds: 10, unbonding: 0, payout_is_home: false, apr_pct: APR_PCT, reg_ahead_s: 0 };
     let out_u0 = explore(ctx, &nm, &alpha_u0, ctx.tier.pick(4, 6), &cfg_u0, true, 1_000_000);
     outs.push(("unbonding-period-zero", &out_u0, alpha_u0.iter().map(sop_label).collect::<Vec<_>>()));
     finish(ctx, outs, n1 + n2, json!({"maturity_sweep": "in every state with two or more pending unbondings: a block update landing exactly on the earliest maturity, directly and after a 50% slash of either validator", "depth_reduced_alphabet": d_reduced, "depth_full_alphabet": d_full, "invalid_operations_tried_in_every_state": invalid_ops().iter().map(sop_label).collect::<Vec<_>>()}), std_assumptions())
@@ -1314,7 +1324,7 @@ pub fn alphabet_c16() -> Vec<SOp> {
 
 pub fn run_c16(ctx: &Ctx) -> i32 {
     let nm = names();
-    let cfg = Cfg { check_rewards: false, prop: "C16".into(), funds: 10, unbonding: UNBONDING, payout_is_home: false, apr_pct: APR_PCT };
+    let cfg = Cfg { check_rewards: false, prop: "C16".into(), funds: 10, unbonding: UNBONDING, payout_is_home: false, apr_pct: APR_PCT, reg_ahead_s: 0 };
     let alpha = alphabet_c16();
     let depth = ctx.tier.pick(4, 5);
     let out = explore(ctx, &nm, &alpha, depth, &cfg, true, 2_000_000);
@@ -1373,7 +1383,7 @@ pub fn run_c16(ctx: &Ctx) -> i32 {
         SOp::Slash { v: 0, pct: 10 },
         SOp::Undelegate { d: 1, v: 0, amt: big, denom: 0 },
     ];
-    let cfg2 = Cfg { check_rewards: false, prop: "C16".into(), funds: 10 * big, unbonding: UNBONDING, payout_is_home: false, apr_pct: APR_PCT };
+    let cfg2 = Cfg { check_rewards: false, prop: "C16".into(), funds: 10 * big, unbonding: UNBONDING, payout_is_home: false, apr_pct: APR_PCT, reg_ahead_s: 0 };
     let out2 = explore(ctx, &nm, &alpha2, ctx.tier.pick(4, 6), &cfg2, false, 2_000_000);
     // an unbonding period of zero: an unbonding is mature the moment it is queued, yet pending (and
     // to be slashed) until the next block update pays it
@@ -1387,7 +1397,7 @@ pub fn run_c16(ctx: &Ctx) -> i32 {
         SOp::Advance { secs: 0 },
         SOp::Advance { secs: 1 },
     ];
-    let cfg3 = Cfg { check_rewards: false, prop: "C16".into(), funds: 10, unbonding: 0, payout_is_home: true, apr_pct: APR_PCT };
+    let cfg3 = Cfg { check_rewards: false, prop: "C16".into(), funds: 10, unbonding: 0, payout_is_home: true, apr_pct: APR_PCT, reg_ahead_s: 0 };
     let out3 = explore(ctx, &nm, &alpha3, ctx.tier.pick(4, 6), &cfg3, false, 2_000_000);
     finish(
         ctx,
@@ -1427,7 +1437,7 @@ pub fn alphabet_c15(tier: Tier) -> Vec<SOp> {
 
 pub fn run_c15(ctx: &Ctx) -> i32 {
     let nm = names();
-    let cfg = Cfg { check_rewards: true, prop: "C15".into(), funds: 1000, unbonding: UNBONDING, payout_is_home: false, apr_pct: APR_PCT };
+    let cfg = Cfg { check_rewards: true, prop: "C15".into(), funds: 1000, unbonding: UNBONDING, payout_is_home: false, apr_pct: APR_PCT, reg_ahead_s: 0 };
     let alpha = alphabet_c15(ctx.tier);
     let depth = ctx.tier.pick(5, 6);
     let out = explore(ctx, &nm, &alpha, depth, &cfg, true, 3_000_000);
@@ -1521,7 +1531,7 @@ pub fn run_c15(ctx: &Ctx) -> i32 {
         SOp::Withdraw { d: 1, v: 0 },
         SOp::Undelegate { d: 1, v: 0, amt: big, denom: 0 },
     ];
-    let cfg2 = Cfg { check_rewards: true, prop: "C15".into(), funds: 10 * big, unbonding: UNBONDING, payout_is_home: false, apr_pct: APR_PCT };
+    let cfg2 = Cfg { check_rewards: true, prop: "C15".into(), funds: 10 * big, unbonding: UNBONDING, payout_is_home: false, apr_pct: APR_PCT, reg_ahead_s: 0 };
     let out2 = explore(ctx, &nm, &alpha2, ctx.tier.pick(5, 6), &cfg2, false, 2_000_000);
     // small odd stakes halved by a slash (1.5 and 2.5 tokens) held for a century: what the fractional
     // part of a stake earns adds up to whole tokens only over such a span
@@ -1533,11 +1543,25 @@ pub fn run_c15(ctx: &Ctx) -> i32 {
         SOp::Withdraw { d: 0, v: 0 },
         SOp::Withdraw { d: 1, v: 0 },
     ];
-    let cfg3 = Cfg { check_rewards: true, prop: "C15".into(), funds: 10, unbonding: UNBONDING, payout_is_home: false, apr_pct: APR_PCT };
+    let cfg3 = Cfg { check_rewards: true, prop: "C15".into(), funds: 10, unbonding: UNBONDING, payout_is_home: false, apr_pct: APR_PCT, reg_ahead_s: 0 };
     let out3 = explore(ctx, &nm, &alpha3, ctx.tier.pick(5, 6), &cfg3, false, 2_000_000);
+    // validators registered with a block half a year AHEAD of the chain's clock (add_validator takes
+    // the block as an argument): nothing accrues, and nothing is shown, before the validator's own
+    // time has come; from then on rewards are linear as ever
+    let alpha4 = vec![
+        SOp::Delegate { d: 0, v: 0, amt: 100, denom: 0 },
+        SOp::Delegate { d: 1, v: 0, amt: 333, denom: 0 },
+        SOp::Advance { secs: YEAR / 3 },
+        SOp::Advance { secs: YEAR / 2 },
+        SOp::Withdraw { d: 0, v: 0 },
+        SOp::Withdraw { d: 1, v: 0 },
+        SOp::Undelegate { d: 1, v: 0, amt: 33, denom: 0 },
+    ];
+    let cfg4 = Cfg { check_rewards: true, prop: "C15".into(), funds: 1000, unbonding: UNBONDING, payout_is_home: false, apr_pct: APR_PCT, reg_ahead_s: YEAR / 2 };
+    let out4 = explore(ctx, &nm, &alpha4, ctx.tier.pick(5, 6), &cfg4, false, 2_000_000);
     finish(
         ctx,
-        vec![("reward-histories", &out, alpha.iter().map(sop_label).collect::<Vec<_>>()), ("sub-second-block-times-large-stakes", &out2, alpha2.iter().map(sop_label).collect::<Vec<_>>()), ("fractional-stakes-over-a-century", &out3, alpha3.iter().map(sop_label).collect::<Vec<_>>())],
+        vec![("reward-histories", &out, alpha.iter().map(sop_label).collect::<Vec<_>>()), ("sub-second-block-times-large-stakes", &out2, alpha2.iter().map(sop_label).collect::<Vec<_>>()), ("fractional-stakes-over-a-century", &out3, alpha3.iter().map(sop_label).collect::<Vec<_>>()), ("validators-registered-ahead-of-the-clock", &out4, alpha4.iter().map(sop_label).collect::<Vec<_>>())],
         n,
         json!({"depth": depth, "stakes": [100, 333], "time_steps_s": [YEAR / 3, YEAR / 2, YEAR, 1], "split_variants": "every advance of {1/3 y, 1/2 y, 1 y, 7 s} from every explored state, unsplit vs split into 2 and 3 block updates"}),
         {
@@ -1553,9 +1577,9 @@ pub fn replay(ctx: &Ctx, case: &Value) {
     let nm = names();
     let prop = ctx.id.clone();
     let (cfg, mut all) = match prop.as_str() {
-        "C15" => (Cfg { check_rewards: true, prop: prop.clone(), funds: 1000, unbonding: UNBONDING, payout_is_home: false, apr_pct: APR_PCT }, alphabet_c15(Tier::Thorough)),
-        "C16" => (Cfg { check_rewards: false, prop: prop.clone(), funds: 10, unbonding: UNBONDING, payout_is_home: false, apr_pct: APR_PCT }, alphabet_c16()),
-        _ => (Cfg { check_rewards: false, prop: prop.clone(), funds: 10, unbonding: UNBONDING, payout_is_home: false, apr_pct: APR_PCT }, alphabet_c14(Tier::Thorough, true)),
+        "C15" => (Cfg { check_rewards: true, prop: prop.clone(), funds: 1000, unbonding: UNBONDING, payout_is_home: false, apr_pct: APR_PCT, reg_ahead_s: 0 }, alphabet_c15(Tier::Thorough)),
+        "C16" => (Cfg { check_rewards: false, prop: prop.clone(), funds: 10, unbonding: UNBONDING, payout_is_home: false, apr_pct: APR_PCT, reg_ahead_s: 0 }, alphabet_c16()),
+        _ => (Cfg { check_rewards: false, prop: prop.clone(), funds: 10, unbonding: UNBONDING, payout_is_home: false, apr_pct: APR_PCT, reg_ahead_s: 0 }, alphabet_c14(Tier::Thorough, true)),
     };
     all.extend(invalid_ops());
     for v in 0..3u8 {
@@ -1574,6 +1598,9 @@ pub fn replay(ctx: &Ctx, case: &Value) {
     let hist: Vec<SOp> = case["history"].as_array().cloned().unwrap_or_default().iter().map(|o| sop_parse(o.as_str().unwrap_or(""), &all)).collect();
     if hist.iter().any(|o| matches!(o, SOp::Delegate { amt, .. } if *amt >= big)) {
         cfg.funds = 10 * big;
+    }
+    if let Some(a) = case["validators_registered_ahead_s"].as_u64() {
+        cfg.reg_ahead_s = a;
     }
     if let Some(a) = case["apr_pct"].as_u64() {
         cfg.apr_pct = a as u32;
